@@ -59,18 +59,59 @@ def eval_fn(d, fn, args, env_facts, depth=0):
         raise Inconclusive("callee %s has no body" % fn.get("name"))
     env = {p["id"]: a for p, a in zip(params, args)}
     stmts = [c for c in body[0].get("inner", ())]
-    for s in stmts:
+    out = eval_stmts(d, stmts, env, env_facts, depth, fn)
+    if not out:
+        raise Inconclusive("no return in " + fn.get("name", "?"))
+    return out
+
+
+def eval_stmts(d, stmts, env, facts, depth, fn):
+    """statements of a small function body: declarations with initialisers, if/else on splittable conditions, returns -> leaves (facts, value)"""
+    for i, s in enumerate(stmts):
+        if not isinstance(s, dict):
+            continue
         k = s.get("kind")
+        if k == "CompoundStmt":
+            return eval_stmts(d, [c for c in s.get("inner", ())] + stmts[i + 1:], env, facts, depth, fn)
         if k == "DeclStmt":
-            if all(c.get("kind") in ("TypeAliasDecl", "TypedefDecl", "UsingDecl", "StaticAssertDecl") for c in s.get("inner", ())):
-                continue
-            raise Inconclusive("local declaration in " + fn.get("name", "?"))
+            for c in s.get("inner", ()):
+                if c.get("kind") in ("TypeAliasDecl", "TypedefDecl", "UsingDecl", "StaticAssertDecl"):
+                    continue
+                if c.get("kind") == "VarDecl":
+                    init = [x for x in c.get("inner", ()) if isinstance(x, dict) and not x.get("kind", "").endswith("Attr")]
+                    if not init:
+                        raise Inconclusive("uninitialised local in " + fn.get("name", "?"))
+                    leaves = eval_expr(d, init[-1], env, facts, depth)
+                    # the local takes the value of each leaf of its initialiser: continue per leaf
+                    out = []
+                    for f2, v in leaves:
+                        env2 = dict(env)
+                        env2[c["id"]] = v
+                        rest = [x for x in s.get("inner", ())]
+                        rest = rest[rest.index(c) + 1:]
+                        tail = ([{"kind": "DeclStmt", "inner": rest}] if rest else []) + stmts[i + 1:]
+                        out += eval_stmts(d, tail, env2, f2, depth, fn)
+                    return out
+                raise Inconclusive("local declaration in " + fn.get("name", "?"))
+            continue
         if k == "ReturnStmt":
-            return eval_expr(d, s["inner"][0], env, env_facts, depth)
+            return eval_expr(d, s["inner"][0], env, facts, depth)
+        if k == "IfStmt":
+            inner = [c for c in s.get("inner", ()) if isinstance(c, dict)]
+            cond, then = inner[0], inner[1]
+            els = inner[2] if len(inner) > 2 else None
+            out = []
+            for f, c in eval_expr(d, cond, env, facts, depth):
+                for f2, truth in split_cond(c, f):
+                    if not feasible(f2):
+                        continue
+                    branch = then if truth else els
+                    out += eval_stmts(d, ([branch] if branch is not None else []) + stmts[i + 1:], dict(env), f2, depth, fn)
+            return out
         if k == "NullStmt":
             continue
         raise Inconclusive("statement %s in %s" % (k, fn.get("name")))
-    raise Inconclusive("no return in " + fn.get("name", "?"))
+    return []
 
 
 def refine(facts, sym, lo, hi):
@@ -101,6 +142,8 @@ def conv(v, to_type, facts):
         return ("unfaithful", "operand %s in [%d,%d] converted to %s [%d,%d] changes value" % (v[1], l, h, to_type, lo, hi))
     if v[0] == "unfaithful":
         return v
+    if v[0] in ("rel", "bconst"):
+        return v             # a bool promoted to an integer type keeps its truth value
     raise Inconclusive("conversion of " + v[0])
 
 
@@ -169,6 +212,19 @@ def eval_expr(d, n, env, facts, depth):
                 for f2, b in eval_expr(d, inner[1], env, f, depth):
                     if a[0] == "unfaithful" or b[0] == "unfaithful":
                         out.append((f2, ("unfaithful", (a if a[0] == "unfaithful" else b)[1])))
+                    elif op in ("==", "!=") and (a[0] in ("rel", "bconst") or b[0] in ("rel", "bconst")):
+                        # `x == true`, `x != false`, `x == y` on truth values
+                        def asb(x):
+                            if x[0] == "const" and x[1] in (0, 1):
+                                return ("bconst", bool(x[1]))
+                            return x
+                        a2, b2 = asb(a), asb(b)
+                        if a2[0] == "bconst" and b2[0] != "bconst":
+                            a2, b2 = b2, a2
+                        if b2[0] != "bconst":
+                            raise Inconclusive("comparison of two truth values")
+                        keep = b2[1] == (op == "==")
+                        out.append((f2, a2 if keep else negate(a2)))
                     elif a[0] in ("sym", "const") and b[0] in ("sym", "const"):
                         out.append((f2, ("rel", op, a, b)))
                     else:
